@@ -66,7 +66,7 @@ RULE = ("mappings of 0-6 keys -> 0-4 values over arbitrary Unicode (JSON-structu
         "an edit (edit), always (sjson); distinct by case content")
 REQUIRED = ["alias: re-fetched features compared with the stored text", "alias: repeated decodes compared",
             "alias: key-order pairs compared", "json: identities checked", "json: stdlib json decodes compared", "json: Feature(attributes=text) round trips",
-            "json: mappings with lone surrogates", "merge: calls", "merge: calls while always_return_list=False", "merge: argument snapshots compared",
+            "json: mappings with lone surrogates", "merge: calls", "merge: calls while always_return_list=False", "merge: argument snapshots compared", "merge: arguments in which two keys share one list object",
             "merge: keys judged in numeric order", "merge: keys judged in text order",
             "db: features read back", "db: raw JSON columns decoded with stdlib json", "db: reopened databases",
             "db: features with lone surrogates read back", "db: features with characters outside the BMP read back",
@@ -295,14 +295,27 @@ def run_json(ctx, case):
 # ---------------------------------------------------------------------------------
 # kind merge
 # ---------------------------------------------------------------------------------
-def build_arg(pairs, typ):
+def build_arg(pairs, typ, shared=False):
+    """shared=True: keys whose value lists are equal hold ONE list object (what f['Name'] = f['ID'] leaves behind)."""
     from gffutils.attributes import Attributes
 
+    made = []
+
+    def value(v):
+        if isinstance(v, str):
+            return v
+        if shared:
+            for old in made:
+                if old == list(v):
+                    return old
+        new = list(v)
+        made.append(new)
+        return new
     if typ == "dict":
-        return {k: (v if isinstance(v, str) else list(v)) for k, v in pairs}
+        return {k: value(v) for k, v in pairs}
     a = Attributes()
     for k, v in pairs:
-        a[k] = v if isinstance(v, str) else list(v)
+        a[k] = value(v)
     return a
 
 
@@ -320,8 +333,13 @@ def run_merge(ctx, case):
 
     a_pairs, b_pairs = case["a"], case["b"]
     pre = "" if case.get("switch", True) else "while always_return_list is False: "
-    a = build_arg(a_pairs, case["a_type"])
-    b = build_arg(b_pairs, case["b_type"])
+    a = build_arg(a_pairs, case["a_type"], shared=case.get("a_shared", False))
+    b = build_arg(b_pairs, case["b_type"], shared=case.get("b_shared", False))
+    for which, obj in (("a", a), ("b", b)):
+        if case.get(which + "_shared"):
+            lists = [id(v) for v in getattr(obj, "_d", obj).values() if isinstance(v, list)]
+            if len(lists) != len(set(lists)):
+                ctx.mon("merge: arguments in which two keys share one list object")
     # what the arguments hold once built (an Attributes object wraps scalars)
     before = (snapshot(a), snapshot(b))
     try:
@@ -1534,6 +1552,15 @@ def merge_phase(ctx, rng, n, switch):
         a, b, pools = G.merge_args(rng)
         case = {"kind": "merge", "a": a, "b": b, "a_type": rng.choice(["dict", "attrs"]), "b_type": rng.choice(["dict", "attrs"]),
                 "numeric_sort": rng.random() < 0.6, "switch": switch}
+        if rng.random() < 0.3:
+            # an alias key: the same values as another key of that argument, held as the same list object
+            which = rng.choice(["a", "b"])
+            pairs = case[which]
+            cands = [kv for kv in pairs if not isinstance(kv[1], str) and len(kv[1]) >= 1]
+            if cands:
+                src = rng.choice(cands)
+                pairs.append([src[0] + "_alias", list(src[1])])
+                case[which + "_shared"] = True
         execute(ctx, case)
         shared = set(k for k, _ in a) & set(k for k, _ in b)
         ctx.case(case, bool(shared), sample=case if switch else None,
